@@ -40,9 +40,35 @@ fn decode_paragraph(src: &mut Source) -> Box<dyn Case> {
     Box::new(C18Case { lang, titles, size, queries: vec![q], early: Vec::new(), session: 0 })
 }
 
+/// a big store in which only a few late records share the query's grams (selective queries)
+fn decode_sparse(src: &mut Source) -> Box<dyn Case> {
+    let lang = gen_lang(src);
+    let plain = plain_letters(lang);
+    let fill: Vec<String> = (0..src.range(3, 8)).map(|_| (0..src.range(2, 5)).map(|_| plain[src.below(10)]).collect()).collect();
+    // rare words start with letters the fillers never use
+    let rare_a: String = (0..src.range(2, 5)).map(|_| plain[20 + src.below(5)]).collect();
+    let rc: Vec<char> = rare_a.chars().collect();
+    let rare_b: String = format!("{}{}", rc[0], plain[12 + src.below(6)]);
+    let size = src.range(1, 2);
+    let nfill = src.range(400, 690);
+    let mut titles: Vec<String> = (0..nfill).map(|_| format!("{} {}", src.pick(&fill), src.pick(&fill))).collect();
+    // weaker matches first (share only the first letter), stronger ones last
+    for _ in 0..(10 * size + src.range(1, 6)) {
+        titles.push(format!("{} {}", rare_b, src.pick(&fill)));
+    }
+    for _ in 0..src.range(1, 5) {
+        titles.push(format!("{} {}", rare_a, src.pick(&fill)));
+    }
+    let q1: String = rc[..2.min(rc.len())].iter().collect();
+    Box::new(C18Case { lang, titles, size, queries: vec![q1, rare_a.clone()], early: Vec::new(), session: 0 })
+}
+
 pub fn decode(src: &mut Source) -> Box<dyn Case> {
     if src.chance(1, 60) {
         return decode_paragraph(src);
+    }
+    if src.chance(1, 60) {
+        return decode_sparse(src);
     }
     let lang = gen_lang(src);
     let plain = plain_letters(lang);
